@@ -281,9 +281,9 @@ def cases_for(tier, s):
     for i, c in enumerate(R):
         c = {k: v for k, v in c.items() if k in ("recipe", "options")}
         c["seed"] = [s, 800, i]
-        c["ast"] = (i % 3 == 0) if tier == "quick" else True
-        c["ast_calls"] = 3 if tier == "quick" else 12
-        c["ast_steps"] = 120000 if tier == "quick" else 600000
+        c["ast"] = (i % 4 == 0) if tier == "quick" else True
+        c["ast_calls"] = 2 if tier == "quick" else 12
+        c["ast_steps"] = 60000 if tier == "quick" else 600000
         if tier == "quick":
             c["max_pairs"] = 9
             c["perm_mode"] = "some"
@@ -316,7 +316,7 @@ def main(tier, replay=None):
     for r in results:
         run.add(r)
     run.require("clean_runs_asan", 30 if not replay else 1)
-    run.require("ast_kernels_interpreted", 20 if not replay else 0)
+    run.require("ast_kernels_interpreted", 10 if not replay else 0)
     run.require("outputs_nonzero", 100 if not replay else 1)
     return run.finish()
 
